@@ -7,6 +7,7 @@ From Coq Require Import String.
 From S4.Base Require Import Bytes.
 From S4.Spec Require Import AssembleSpec ContainersSpec.
 From S4.Model Require Import Assemble Containers.
+From S4.Corr Require C05.
 Open Scope N_scope.
 
 Definition hexcat (l : list string) : bytes := flat_map unhex l.
@@ -192,3 +193,46 @@ Definition ntf_case_bad (c : ntf_case_t) : list N :=
 
 Definition run_cases {A} (f : A -> list N) (cs : list A) : list (N * N) :=
   flat_map (fun ic => map (fun code => (fst ic, code)) (f (snd ic))) (index_from 0 cs).
+
+
+(* ---- read blocks LARGER than the compressor's internal block (bzip2 level x 100 kB, lz4 frame blocks,
+   the gz reader's 2056-byte buffer, xz): text logs of 250-700 kB.  Such a log is not written into the
+   case file (coqc spends most of its time parsing long literals): it is GENERATED here, and by the same
+   rule in checks/c05_glue.py:
+     line i = "2024-03-05 HH:MM:SS host app[D]: big block line NNNNNN abcdefghijklmnopqrstuvwxyz0123456789 ABCDEFGHIJ\n"
+     HH:MM:SS = 00:00:00 + i seconds, D = i mod 7, NNNNNN = i. *)
+Definition dec2 (k : N) : bytes := [48 + (k / 10) mod 10; 48 + k mod 10].
+Definition dec6 (k : N) : bytes :=
+  [48 + (k / 100000) mod 10; 48 + (k / 10000) mod 10; 48 + (k / 1000) mod 10; 48 + (k / 100) mod 10; 48 + (k / 10) mod 10; 48 + k mod 10].
+Definition gen_line (i : N) : bytes :=
+  s2b "2024-03-05 " ++ dec2 ((i / 3600) mod 24) ++ [58] ++ dec2 ((i / 60) mod 60) ++ [58] ++ dec2 (i mod 60)
+  ++ s2b " host app[" ++ [48 + i mod 7] ++ s2b "]: big block line " ++ dec6 i
+  ++ s2b " abcdefghijklmnopqrstuvwxyz0123456789 ABCDEFGHIJ" ++ [10].
+Fixpoint gen_log_from (k : nat) (i : N) : bytes :=
+  match k with O => [] | S k' => gen_line i ++ gen_log_from k' (i + 1) end.
+Definition gen_log (nlines : N) : bytes := gen_log_from (N.to_nat nlines) 0.
+
+(* digest of a block, the same in harness c05 `openh` (blocks of 128 KiB .. 700 kB are compared
+   by length and digest instead of by their hex text) *)
+(* Fletcher-style, no reduction: a = sum of (byte + 1), c = sum of the running a; position sensitive
+   (a zero-filled or shifted tail changes it); digest = c * 2^32 + a  (a < 2^32 for blocks under 16 MiB) *)
+Definition digest (l : bytes) : N :=
+  let '(a, c) := fold_left (fun ac b => let a' := fst ac + b + 1 in (a', snd ac + a')) l (0, 0) in
+  c * 4294967296 + a.
+
+(* (codec 1 gz 2 bz2 3 lz4 4 xz, number of lines, schedule / lz4 internal block sizes,
+    [(bs, [(block index, kind, length, digest)])]) *)
+Definition big_case_t := (N * N * list N * list (N * list (N * N * N * N)))%type.
+Definition big_case_bad (c : big_case_t) : list N :=
+  let '(codec, nlines, sched, per_bs) := c in
+  let plain := gen_log nlines in
+  flat_map (fun pb =>
+    let '(bs, results) := pb in
+    flat_map (fun r =>
+      let '(i, kind, ln, dg) := r in
+      match C05.model_block codec bs plain sched i with
+      | AOk b => chk ((kind =? 0) && (ln =? lenN b) && (dg =? digest b)) (1000 * (bs / 65536) + i)
+      | ADone => chk (kind =? 1) (1000 * (bs / 65536) + i)
+      | AErr _ => chk (kind =? 2) (1000 * (bs / 65536) + i)
+      | AOutOfFuel => [9]
+      end) results) per_bs.
